@@ -87,11 +87,13 @@ def validate(chk, vh, files, label, spec="Trace_StripStream"):
         lines = open(p).read().split("\n")
         at = rej["reject_at"] - 1
         start = at
-        while start > 0 and json.loads(lines[start])["new"] != 1:
+        def starts(o):
+            return o.get("new") == 1 or o.get("op") == "new"
+        while start > 0 and not starts(json.loads(lines[start])):
             start -= 1
         evs = [json.loads(l) for l in lines[start:at + 1]]
         chk.violation("%s: call %d rejected by %s: op=%s buf=%s inner=%s ret=%s"
-                      % (label, rej["reject_at"], spec, evs[-1]["op"], evs[-1]["buf"], evs[-1]["inner"], evs[-1]["ret"]),
+                      % (label, rej["reject_at"], spec, evs[-1]["op"], evs[-1].get("buf"), evs[-1].get("inner"), evs[-1].get("ret")),
                       {"kind": "stream-trace", "events": evs, "flags": flags, "spec": spec})
 
 
